@@ -20,51 +20,51 @@ func init() {
 
 var reviewedExpr = []reviewedEntry{
 	// --- pkg/aggregation (KeyBuilderContext of reduce)
-	{"index", "rare/pkg/aggregation.(*AccumulatingGroup).Sample", "rowData[i]", 1, "rowData was made with len(s.colDef) two lines above and i ranges over s.colDef"},
-	{"index", "rare/pkg/aggregation.(*AccumulatingGroup).Sample", "rowData[idx]", 3, "every row has len(s.colDef) cells (rows are only created here with that length and AddDataExpr refuses to grow colDef once data exists); idx ranges over s.colDef or is a value of colIdxLookup, which only holds len(colDef)-1 at insertion time"},
-	{"index", "rare/pkg/aggregation.(*AccumulatingGroup).Groups", "s.data[x][idx]", 1, "x is a key of s.data (ret is built from its keys) so the row exists with len(colDef) cells; idx is a value of colIdxLookup (< len(colDef)), looked up with comma-ok"},
+	rv("index", "rare/pkg/aggregation.(*AccumulatingGroup).Sample", "rowData[i]", 1, "rowData was made with len(s.colDef) two lines above and i ranges over s.colDef"),
+	rv("index", "rare/pkg/aggregation.(*AccumulatingGroup).Sample", "rowData[idx]", 3, "every row has len(s.colDef) cells (rows are only created here with that length and AddDataExpr refuses to grow colDef once data exists); idx ranges over s.colDef or is a value of colIdxLookup, which only holds len(colDef)-1 at insertion time"),
+	rv("index", "rare/pkg/aggregation.(*AccumulatingGroup).Groups", "s.data[x][idx]", 1, "x is a key of s.data (ret is built from its keys) so the row exists with len(colDef) cells; idx is a value of colIdxLookup (< len(colDef)), looked up with comma-ok"),
 	// --- pkg/expressions
-	{"slice", "rare/pkg/expressions.(*KeyBuilder).Compile", "runes[startStatement:i + 1]", 1, "startStatement was assigned an earlier (or the same) value of i; in this branch i was not advanced past the loop condition i < len(runes)"},
-	{"slice", "rare/pkg/expressions.(*KeyBuilder).Compile", "runes[startStatement:]", 1, "startStatement is 0 or an earlier loop index < len(runes)"},
-	{"loop", "rare/pkg/expressions/funcfile.LoadDefinitions", "for ; ; ", 1, "leaves when the inner bufio.Scanner loop appended nothing, which happens at the latest when the scanner is exhausted (Scan keeps returning false)"},
-	{"index", "rare/pkg/expressions/stdlib.arithmaticHelperi", "typedArgs[0]", 1, "typedArgs = mapTypedArgs(args, ..) has len(args) elements on the ok path and len(args) >= 2 was checked"},
-	{"index", "rare/pkg/expressions/stdlib.arithmaticHelperi", "typedArgs[i]", 1, "same length as args; 1 <= i < len(args)"},
-	{"index", "rare/pkg/expressions/stdlib.arithmaticHelperiNonZero", "typedArgs[0]", 1, "typedArgs = mapTypedArgs(args, ..) has len(args) elements on the ok path and len(args) >= 2 was checked"},
-	{"index", "rare/pkg/expressions/stdlib.arithmaticHelperiNonZero", "typedArgs[i]", 1, "same length as args; 1 <= i < len(args)"},
-	{"index", "rare/pkg/expressions/stdlib.arithmaticHelperf", "typedArgs[0]", 1, "typedArgs = mapTypedArgs(args, ..) has len(args) elements on the ok path and len(args) >= 2 was checked"},
-	{"index", "rare/pkg/expressions/stdlib.arithmaticHelperf", "typedArgs[i]", 1, "same length as args; 1 <= i < len(args)"},
-	{"loop", "rare/pkg/expressions/stdlib.kfArrayRange", "for i := start; (incr > 0 && i < stop) || (incr < 0 && i > stop); i += incr", 1, "in each disjunct i moves by the non-zero incr towards stop (incr == 0 makes the condition false at once); int overflow near MaxInt ends the loop as well because the comparison flips"},
-	{"slice", "rare/pkg/expressions/stdlib.kfSubstr", "s[left:left + length]", 1, "left was clamped to [0,lenS], length to [0,lenS-left] by the four preceding ifs, so left+length cannot overflow and is <= lenS"},
-	{"slice", "rare/pkg/expressions/stdlib.selectField", "s[wordStart:i]", 1, "wordStart is 0 or an earlier range index of the same string"},
-	{"slice", "rare/pkg/expressions/stdlib.selectField", "s[wordStart:]", 1, "wordStart is 0 or a range index of s"},
-	{"assert", "rare/pkg/expressions/stdlib.smartDateParseWrapper", "atomicFormat.Load().(string)", 1, "atomicFormat is a local atomic.Value; both Store calls (the initial \"\" and the detected format) store a string before/after this load"},
-	{"index", "rare/pkg/expressions/stdlib.EvalStageIndexOrDefault", "stages[idx]", 1, "guarded above by idx < len(stages); every caller passes a non-negative constant index (re-checked mechanically: rule C08/const-index-callers)"},
-	{"index", "rare/pkg/expressions/stdlib.EvalArgInt", "stages[idx]", 1, "guarded above by idx < len(stages); every caller passes a non-negative constant index (re-checked mechanically: rule C08/const-index-callers)"},
-	{"panic", "rare/pkg/expressions/stdmath.opCodeOrder", "panic(\"op not found\")", 1, "op1 is always a key of ops (getNextOp) and every key of ops occurs in orderOfOps (checked by C19-b), so one row contains it and the loop returns"},
-	{"slice", "rare/pkg/expressions/stdmath.prefixInOps", "s[:min(len(s), maxLen)]", 1, "min(len(s), 2) is within [0,len(s)]"},
-	{"loop", "rare/pkg/expressions/stdmath.(*tokenScanner).compileTokens", "for ; !s.done(); ", 1, "each iteration returns or pops one token through getNextOp(true) (opCodeOrder only yields -1, 0, 1); the token list is finite"},
-	{"index", "rare/pkg/expressions/stdmath.(*tokenScanner).pop", "s.next[0]", 1, "callers: getNextExpr (after its own done() check) and getNextOp(true), which is only called inside the !s.done() loop after getNextOp(false) succeeded without consuming (re-checked: rule C08/scanner-guard)"},
-	{"index", "rare/pkg/expressions/stdmath.(*tokenScanner).peek", "s.next[0]", 1, "only called from getNextOp, whose call sites are inside compileTokens' !s.done() loop with no pop in between (re-checked: rule C08/scanner-guard)"},
-	{"slice", "rare/pkg/expressions/stdmath.compileToken", "t.val[1:len(t.val) - 1]", 1, "the case is guarded by isBoxed(t.val), which requires len >= 2"},
-	{"loop", "rare/pkg/expressions/stdmath.tokenizeExpr", "for i := 0; i < len(s); i++", 1, "besides i++ the body only adds len(opCode)-1 >= 0: opCode is a key of ops and all keys are non-empty (checked by C19-b)"},
-	{"index", "rare/pkg/expressions/stdmath.tokenizeExpr", "s[i]", 1, "first statement of the body under i < len(s); i starts at 0 and never decreases (see loop entry)"},
+	rv("slice", "rare/pkg/expressions.(*KeyBuilder).Compile", "runes[startStatement:i + 1]", 1, "startStatement was assigned an earlier (or the same) value of i; in this branch i was not advanced past the loop condition i < len(runes)"),
+	rv("slice", "rare/pkg/expressions.(*KeyBuilder).Compile", "runes[startStatement:]", 1, "startStatement is 0 or an earlier loop index < len(runes)"),
+	rv("loop", "rare/pkg/expressions/funcfile.LoadDefinitions", "for ; ; ", 1, "leaves when the inner bufio.Scanner loop appended nothing, which happens at the latest when the scanner is exhausted (Scan keeps returning false)"),
+	rv("index", "rare/pkg/expressions/stdlib.arithmaticHelperi", "typedArgs[0]", 1, "typedArgs = mapTypedArgs(args, ..) has len(args) elements on the ok path and len(args) >= 2 was checked", "len(args) >= 2"),
+	rv("index", "rare/pkg/expressions/stdlib.arithmaticHelperi", "typedArgs[i]", 1, "same length as args; 1 <= i < len(args)", "i < len(args)"),
+	rv("index", "rare/pkg/expressions/stdlib.arithmaticHelperiNonZero", "typedArgs[0]", 1, "typedArgs = mapTypedArgs(args, ..) has len(args) elements on the ok path and len(args) >= 2 was checked", "len(args) >= 2"),
+	rv("index", "rare/pkg/expressions/stdlib.arithmaticHelperiNonZero", "typedArgs[i]", 1, "same length as args; 1 <= i < len(args)", "i < len(args)"),
+	rv("index", "rare/pkg/expressions/stdlib.arithmaticHelperf", "typedArgs[0]", 1, "typedArgs = mapTypedArgs(args, ..) has len(args) elements on the ok path and len(args) >= 2 was checked", "len(args) >= 2"),
+	rv("index", "rare/pkg/expressions/stdlib.arithmaticHelperf", "typedArgs[i]", 1, "same length as args; 1 <= i < len(args)", "i < len(args)"),
+	rv("loop", "rare/pkg/expressions/stdlib.kfArrayRange", "for i := start; (incr > 0 && i < stop) || (incr < 0 && i > stop); i += incr", 1, "in each disjunct i moves by the non-zero incr towards stop (incr == 0 makes the condition false at once); int overflow near MaxInt ends the loop as well because the comparison flips"),
+	rv("slice", "rare/pkg/expressions/stdlib.kfSubstr", "s[left:left + length]", 1, "left was clamped to [0,lenS], length to [0,lenS-left] by the four preceding ifs, so left+length cannot overflow and is <= lenS"),
+	rv("slice", "rare/pkg/expressions/stdlib.selectField", "s[wordStart:i]", 1, "wordStart is 0 or an earlier range index of the same string"),
+	rv("slice", "rare/pkg/expressions/stdlib.selectField", "s[wordStart:]", 1, "wordStart is 0 or a range index of s"),
+	rv("assert", "rare/pkg/expressions/stdlib.smartDateParseWrapper", "atomicFormat.Load().(string)", 1, "atomicFormat is a local atomic.Value; both Store calls (the initial \"\" and the detected format) store a string before/after this load"),
+	rv("index", "rare/pkg/expressions/stdlib.EvalStageIndexOrDefault", "stages[idx]", 1, "guarded above by idx < len(stages); every caller passes a non-negative constant index (re-checked mechanically: rule C08/const-index-callers)", "idx < len(stages)"),
+	rv("index", "rare/pkg/expressions/stdlib.EvalArgInt", "stages[idx]", 1, "guarded above by idx < len(stages); every caller passes a non-negative constant index (re-checked mechanically: rule C08/const-index-callers)", "idx < len(stages)"),
+	rv("panic", "rare/pkg/expressions/stdmath.opCodeOrder", "panic(\"op not found\")", 1, "op1 is always a key of ops (getNextOp) and every key of ops occurs in orderOfOps (checked by C19-b), so one row contains it and the loop returns"),
+	rv("slice", "rare/pkg/expressions/stdmath.prefixInOps", "s[:min(len(s), maxLen)]", 1, "min(len(s), 2) is within [0,len(s)]"),
+	rv("loop", "rare/pkg/expressions/stdmath.(*tokenScanner).compileTokens", "for ; !s.done(); ", 1, "each iteration returns or pops one token through getNextOp(true) (opCodeOrder only yields -1, 0, 1); the token list is finite"),
+	rv("index", "rare/pkg/expressions/stdmath.(*tokenScanner).pop", "s.next[0]", 1, "callers: getNextExpr (after its own done() check) and getNextOp(true), which is only called inside the !s.done() loop after getNextOp(false) succeeded without consuming (re-checked: rule C08/scanner-guard)"),
+	rv("index", "rare/pkg/expressions/stdmath.(*tokenScanner).peek", "s.next[0]", 1, "only called from getNextOp, whose call sites are inside compileTokens' !s.done() loop with no pop in between (re-checked: rule C08/scanner-guard)"),
+	rv("slice", "rare/pkg/expressions/stdmath.compileToken", "t.val[1:len(t.val) - 1]", 1, "the case is guarded by isBoxed(t.val), which requires len >= 2", "isBoxed(t.val)"),
+	rv("loop", "rare/pkg/expressions/stdmath.tokenizeExpr", "for i := 0; i < len(s); i++", 1, "besides i++ the body only adds len(opCode)-1 >= 0: opCode is a key of ops and all keys are non-empty (checked by C19-b)"),
+	rv("index", "rare/pkg/expressions/stdmath.tokenizeExpr", "s[i]", 1, "first statement of the body under i < len(s); i starts at 0 and never decreases (see loop entry)", "i < len(s)"),
 	// --- contexts and helpers reached from stages
-	{"slice", "rare/pkg/extractor.(*SliceSpaceExpressionContext).GetMatch", "s.linePtr[start:end]", 1, "matcher contract: index pairs are -1 or satisfy 0 <= start <= end <= len(line); for dissect this is the content of C12-c, for regexp it is the library contract of FindSubmatchIndex"},
-	{"loop", "rare/pkg/humanize.humanizeInt", "for ; v > 0; ", 1, "v /= 10 on every iteration with v > 0"},
-	{"index", "rare/pkg/humanize.humanizeInt", "buf[idx]", 3, "buf has 32 bytes; a 64-bit value has at most 20 digits + 6 separators + sign = 27 writes, idx starts at 31 and is decremented once per write"},
-	{"slice", "rare/pkg/humanize.humanizeInt", "buf[idx + 1:]", 1, "idx >= 31-27, so 0 <= idx+1 <= 32"},
-	{"index", "rare/pkg/humanize.humanizeFloat", "s[0]", 2, "strconv.AppendFloat always appends at least one byte"},
-	{"index", "rare/pkg/humanize.humanizeFloat", "s[i]", 1, "i < decIdx and decIdx is an index into s or len(s)"},
-	{"slice", "rare/pkg/humanize.humanizeFloat", "s[decIdx + 1:]", 1, "guarded by decIdx < len(s)"},
-	{"index", "rare/pkg/humanize.unitize", "units[0]", 1, "every caller passes a slice of a non-empty fixed array (byteSizes, siSizes, unitSize)"},
-	{"index", "rare/pkg/humanize.unitize", "units[rank]", 1, "rank starts at 0 and the loop stops at rank == len(units)-1"},
-	{"index", "rare/pkg/minijson.escape", "escapeLookup[r]", 1, "evaluated only after int(r) < len(escapeLookup) (short-circuit &&); r comes from ranging over a string, so r >= 0"},
-	{"slice", "rare/pkg/minijson.escape", "s[:i]", 1, "i is a range index of s"},
-	{"precond", "rare/pkg/slicepool.NewObjectPoolEx", "make([]*T, size)", 1, "only called with the constant sizes of the package-level pools (5) - a negative size would fail at program start, not on input"},
-	{"index", "rare/pkg/slicepool.NewObjectPoolEx", "ret.pool[i]", 1, "pool was made with length size and 0 <= i < size"},
-	{"slice", "rare/pkg/slicepool.(*ObjectPool).Get", "s.pool[:end]", 1, "end = len(s.pool)-1 after the len(s.pool) == 0 early return, under the pool mutex"},
-	{"slice", "rare/pkg/stringSplitter.(*Splitter).Next", "s.S[s.next:]", 2, "s.next is 0 (zero value), -1 (filtered by the first if) or a previous idx+1 with idx < len(S) an index found inside S"},
-	{"slice", "rare/pkg/stringSplitter.(*Splitter).Next", "s.S[s.next:idx]", 1, "idx = s.next + offset of Delim within S[s.next:], so s.next <= idx <= len(S)"},
+	rv("slice", "rare/pkg/extractor.(*SliceSpaceExpressionContext).GetMatch", "s.linePtr[start:end]", 1, "matcher contract: index pairs are -1 or satisfy 0 <= start <= end <= len(line); for dissect this is the content of C12-c, for regexp it is the library contract of FindSubmatchIndex", "start >= 0", "end >= 0"),
+	rv("loop", "rare/pkg/humanize.humanizeInt", "for ; v > 0; ", 1, "v /= 10 on every iteration with v > 0"),
+	rv("index", "rare/pkg/humanize.humanizeInt", "buf[idx]", 3, "buf has at least 27 bytes (re-checked): a 64-bit value has at most 20 digits + 6 separators + sign = 27 writes, idx starts at len(buf)-1 and is decremented once per write", "arraylen>=27"),
+	rv("slice", "rare/pkg/humanize.humanizeInt", "buf[idx + 1:]", 1, "at most 27 decrements from len(buf)-1 with len(buf) >= 27 (re-checked), so 0 <= idx+1 <= len(buf)", "arraylen>=27"),
+	rv("index", "rare/pkg/humanize.humanizeFloat", "s[0]", 2, "strconv.AppendFloat always appends at least one byte"),
+	rv("index", "rare/pkg/humanize.humanizeFloat", "s[i]", 1, "i < decIdx and decIdx is an index into s or len(s)", "i < decIdx"),
+	rv("slice", "rare/pkg/humanize.humanizeFloat", "s[decIdx + 1:]", 1, "guarded by decIdx < len(s)", "decIdx < len(s)"),
+	rv("index", "rare/pkg/humanize.unitize", "units[0]", 1, "every caller passes a slice of a non-empty fixed array (byteSizes, siSizes, unitSize)"),
+	rv("index", "rare/pkg/humanize.unitize", "units[rank]", 1, "rank starts at 0 and the loop stops at rank == len(units)-1"),
+	rv("index", "rare/pkg/minijson.escape", "escapeLookup[r]", 1, "evaluated only after int(r) < len(escapeLookup) (short-circuit &&); r comes from ranging over a string, so r >= 0", "fact:int(r) < len(escapeLookup)"),
+	rv("slice", "rare/pkg/minijson.escape", "s[:i]", 1, "i is a range index of s"),
+	rv("precond", "rare/pkg/slicepool.NewObjectPoolEx", "make([]*T, size)", 1, "only called with the constant sizes of the package-level pools (5) - a negative size would fail at program start, not on input"),
+	rv("index", "rare/pkg/slicepool.NewObjectPoolEx", "ret.pool[i]", 1, "pool was made with length size and 0 <= i < size"),
+	rv("slice", "rare/pkg/slicepool.(*ObjectPool).Get", "s.pool[:end]", 1, "end = len(s.pool)-1 after the len(s.pool) == 0 early return, under the pool mutex", "len(s.pool) != 0"),
+	rv("slice", "rare/pkg/stringSplitter.(*Splitter).Next", "s.S[s.next:]", 2, "s.next is 0 (zero value), -1 (filtered by the first if) or a previous idx+1 with idx < len(S) an index found inside S", "s.next >= 0"),
+	rv("slice", "rare/pkg/stringSplitter.(*Splitter).Next", "s.S[s.next:idx]", 1, "idx = s.next + offset of Delim within S[s.next:], so s.next <= idx <= len(S)", "s.next >= 0"),
 }
 
 func runC08(c *Ctx, r *Report) {
